@@ -16,7 +16,7 @@ NEUTRAL = ["a.com", "example.org", "l.a.com", "netflix.com", "chat.me", "fox.com
 HOSTFORMS = ["asis", "upper", "sub", "deep", "glued", "foreign-tail", "l-prefix"]
 USERINFO = ["", "u@", "facebook.com@", "u:t.me@"]
 PATHS = ["", "/", "/abcd", "/index.html", "/a/b", "/x.facebook.com/", "/@t.me", "/twitter.com", "/abcd/", "/home", "/index", "/home/",
-         "/homes"]
+         "/homes", "//medialab"]
 QUERIES = ["", "?y=@twitter.com/", "?u=http://youtu.be/x", "?facebook.com", "?q=@bit.ly/"]
 FRAGS = ["", "#@facebook.com/", "#t.me", "#@instagram.com"]
 FORMS = ["http", "https", "bare", "slashes", "split"]
